@@ -75,3 +75,17 @@ Proof. exact tie_buffer_relative_position. Qed.
 Check C10_source_relative_position : forall b pc pr c r, g_buffer_relative_position (S (length (lines b))) (S (S (pc + length (lines b)))) b (pc, pr) c r =~ relative_position (lines b) pc pr c r.
 Print Assumptions C10_source_relative_position.
 
+From Avt Require Import Gen.TermFns Proofs.TermTie Proofs.TermTieW Proofs.TermTieX.
+(** further methods regenerated in W-mode (swap / Buffer::new / tabs / dirty-list events, the buffer.resize query) *)
+(** Terminal::reflow: the buffer.resize call with its arguments, the saved-context clamps, the pending-wrap update, tab-stop and dirty-list resizing *)
+Theorem C10_source_terminal_reflow : forall t, ZW t -> w_reflow Om (zabs t) (wabs t) = wres (reflow t).
+Proof. exact w_reflow_eq. Qed.
+Check C10_source_terminal_reflow : forall t, ZW t -> w_reflow Om (zabs t) (wabs t) = wres (reflow t).
+Print Assumptions C10_source_terminal_reflow.
+
+(** Terminal::resize (public), including the returned flag; Rust underflows for c = 0 or r = 0, hence the hypotheses (Vt::resize's builder contract) *)
+Theorem C10_source_terminal_resize : forall t c r, ZW t -> 1 <= c -> 1 <= r -> w_resize Om (zabs t) (wabs t) (Z.of_nat c) (Z.of_nat r) = wres_flag (term_resize t c r) (negb ((c =? cols t) && (r =? rows t))).
+Proof. exact w_resize_eq. Qed.
+Check C10_source_terminal_resize : forall t c r, ZW t -> 1 <= c -> 1 <= r -> w_resize Om (zabs t) (wabs t) (Z.of_nat c) (Z.of_nat r) = wres_flag (term_resize t c r) (negb ((c =? cols t) && (r =? rows t))).
+Print Assumptions C10_source_terminal_resize.
+
